@@ -47,6 +47,7 @@ def main (args : List String) : IO UInt32 := do
   | ["c07"] => Goml.Driver.C07.main; return 0
   | ["c03"] => Goml.Driver.C03.main; return 0
   | ["c03pres"] => Goml.Driver.C03pres.main; return 0
+  | ["c03presmatch"] => Goml.Driver.C03pres.mainMatch; return 0
   | ["dce"] => Goml.Driver.Dce.main; return 0
   | ["c09"] => Goml.Driver.C09.main; return 0
   | ["gocomp"] => Goml.Driver.GoComp.main; return 0
